@@ -280,7 +280,7 @@ pub fn check(c: &Case, st: &mut Stats) -> Result<(), Violation> {
 }
 
 pub fn run(ctx: &Ctx, st: &mut Stats) -> Vec<Violation> {
-    run_proptest(ctx, st, "random", ctx.pick(200_000, 20_000_000), strategy, check)
+    run_proptest(ctx, st, "random", ctx.cases(1_000_000, 20_000_000), strategy, check)
 }
 
 pub fn replay(v: &Value) -> Result<(), String> {
